@@ -44,7 +44,7 @@ def gen_cond(rng):
     ])
 
 
-def gen_act(rng, control=True, errors=False):
+def gen_act(rng, control=True, errors=False, collects=False):
     n = rng.randrange(1, 3)
     acts = [
         'print("p $.csvpath.line_number $.variables.x ")', f'push("s{n}", line_number())', "@x = count()",
@@ -61,26 +61,28 @@ def gen_act(rng, control=True, errors=False):
         acts += ["@su = sum(int(#b))", "@ad = add(#a, #b)", "@i = int(#b)", "@sb = subtract(int(#a), 1)"]
     else:
         acts += ["@su = sum(int(#a))" if False else "@su = count(#b)"]
+    if collects:    # the collect() match function: returned lines are limited to the named headers (the id column is kept first)
+        acts += ['collect("id")', 'collect("id", "b")', 'collect(0, 1)', 'collect("id")', 'collect("id", "a")']
     return rng.choice(acts)
 
 
-def gen_comp(rng, control=True, errors=False):
+def gen_comp(rng, control=True, errors=False, collects=False):
     r = rng.random()
     if r < 0.5:
-        return f"{gen_cond(rng)} -> {gen_act(rng, control, errors)}"
+        return f"{gen_cond(rng)} -> {gen_act(rng, control, errors, collects)}"
     if r < 0.8:
-        return gen_act(rng, control, errors)
+        return gen_act(rng, control, errors, collects)
     return gen_cond(rng)
 
 
-def gen_prog(rng, fname, control=True, errors=False, modes=True, maxcomps=4, scans=None):
+def gen_prog(rng, fname, control=True, errors=False, modes=True, maxcomps=4, scans=None, collects=False):
     """returns dict(scan, comment, comps, text)"""
     scan = rng.choice(scans or SCANS)
     comment = ""
     if modes:
         comment = rng.choice(["", "", "", "~logic-mode: OR :~ ", "~return-mode: no-matches :~ ", "~unmatched-mode: keep :~ ",
                               "~return-mode: no-matches unmatched-mode: keep :~ ", "~ id: p1 :~ "])
-    comps = [gen_comp(rng, control, errors) for _ in range(rng.randrange(1, maxcomps + 1))]
+    comps = [gen_comp(rng, control, errors, collects) for _ in range(rng.randrange(1, maxcomps + 1))]
     # the property's side conditions: last() -> comes last; onmatch only in AND mode
     comps.sort(key=lambda c: 1 if c.startswith("last()") else 0)
     if "OR" in comment:
